@@ -99,7 +99,8 @@ def mc_worlds():
     w2 = world([
         tmpl(["c", ".", "html"], targs=[("timeout", "i:60")], cached=True, pargs=[("type", "s:file")],
              items=[item(1), item(2), item(3, "V")],
-             secs=[sec("nb", "nblock", args=[("timeout", "s:3600")], filt=True),
+             bf=True,
+             secs=[sec("nb", "nblock", args=[("timeout", "s:3600")], filt=True, buf=True),
                    sec("anon1", "ablock", key="mod", pfx="KM_"),
                    sec("bar", "def", key="ctx", pfx="KS_")]),
     ], passctx=False)
@@ -118,7 +119,7 @@ def mc_worlds_more():
         tmpl(["d", "-", "e", ".", "html"], targs=[("type", "s:memory")], bf=True, en0=False, items=[item(1, "V"), item(4, "A")],
              secs=[sec("foo", "def", key="ctx", pfx="K1_", buf=True, items=[item(2, "A"), item(3)]),
                    sec("inner", "ndef", key="arg", pfx="K2_", args=[("timeout", "s:7")], buf=True, filt=True, parent=1),
-                   sec("anon3", "ablock", args=[("region", "s:r1")], parent=1),
+                   sec("anon3", "ablock", args=[("region", "s:r1")], buf=True, parent=1),
                    sec("bar", "def", args=[("type", "s:file")], filt=True)]),
         tmpl(["d", "_", "e", ".", "html"], targs=[("timeout", "i:5")], pargs=[("timeout", "s:3600")], items=[item(1, "A")],
              secs=[sec("bar", "def", items=[item(2, "B")]), sec("baz", "def", key="arg", pfx="K1_")]),
@@ -277,7 +278,7 @@ def gen_template(rng, uri, profile, tno):
         else:
             key = rng.choice(["static", "static", "static", "ctx", "ctx", "mod"])
         pfx = "" if key == "static" else ("KS_" if rng.random() < 0.2 else "K%d_" % j)
-        buf = kind in ("def", "ndef") and rng.random() < 0.35      # buffered blocks are not generated (see limits)
+        buf = rng.random() < 0.35          # defs and blocks alike (a buffered block returns its text, the call site writes it)
         filt = rng.random() < 0.3
         secs.append(sec(name, kind, cached=cached, key=key, pfx=pfx, args=gen_args(rng, profile, 0.25), buf=buf, filt=filt, parent=parent,
                         sig=[], kp=0))
@@ -1274,14 +1275,15 @@ def check(run):
             run.sample({"direction": "V", "backend": profile, "events": [{k: x for k, x in e.items() if k != "store"} for e in traces[0]["events"][:4]]})
     run.assumptions += [
         "no wall-clock expiry: section timeouts given to Beaker/dogpile are >= 3600 s; the reference backend ignores timeouts",
-        "templates are constructed directly (Template(text, uri=...)) and do not call each other; they share the backend only",
-        "buffered=\"True\" on <%block> is not generated: an uncached buffered block already loses its output (its return value is dropped), so the property's reference output is undefined there",
+        "templates live in one TemplateLookup (configured per Template or on the lookup) and call each other only through <%namespace>, <%include> and <%inherit>/next.body(); named blocks take no args and are not overridden",
+        "every operation on the real code runs under a watchdog (a hang is the observation exc:OpTimeout)",
         "cache.set is exercised on the reference backend only (BeakerCacheImpl and dogpile's plugin implement put(), not set(): Cache.set raises NotImplementedError there)",
         "dogpile.cache: one region per template (its Mako plugin does not namespace keys by cache id; third-party code)",
     ]
     return {"rule": "TLC exhaustive on bounded Cache.tla instances (intended design: strict invariants; code-shaped model: invariants modulo "
                     "recorded deviations, strict counterexamples replayed on the real code); -simulate histories of length 30 replayed action "
-                    "by action on real templates over four backends; seeded random histories recorded from real templates validated against "
+                    "by action on real templates over five backends (reference dict, Beaker memory/file/dbm, dogpile.cache); three probe worlds (signature "
+                    "shapes once mishandled by the cache wrapper) rendered against the model; seeded random histories recorded from real templates validated against "
                     "Trace_Cache.tla. A case is one history over one generated world; distinct by construction (seeded).",
             "exhaustive": False}
 
